@@ -278,11 +278,17 @@ def bounded(ctx):
                 viol.append(dict(name="retry_%d_%s" % (j, "cit" if with_cit else "plain"),
                                  what="retry after an injected failure at module %d ends with %r" % (j, got2),
                                  case=dict(inject=j, citations=with_cit)))
+    # the shared scenarios: this property's oracle over the cross product of the unusual input dimensions
+    from bounded import scenarios as sn
+    n_sw, d_sw, v_sw = sn.sweep(ctx, ns, 'frame')
+    evals += n_sw
+    distinct |= {("shared",) + tuple(map(str, k_)) for k_ in d_sw}
+    viol.extend(v_sw)
     uniq = {}
     for v in viol:
         uniq.setdefault(v["name"], v)
     return dict(evaluations=evals, distinct_nontrivial=len(distinct),
-                rule="a malformed or dangling citation in each element in turn; every rotation of the vector plasmid and of the first module plasmid x {complete, missing module}; BsaI vector + chain of 3 annotated modules, with and without literature citations: 10 scenarios (complete, "
+                rule="" + sn.SWEEP_RULE + "; a malformed or dangling citation in each element in turn; every rotation of the vector plasmid and of the first module plasmid x {complete, missing module}; BsaI vector + chain of 3 annotated modules, with and without literature citations: 10 scenarios (complete, "
                      "reordered, unused module, missing module after 0/1/2 consumed, duplicate, invalid vector, invalid module, same "
                      "object twice) x 3 consecutive calls, plus an exception injected into the j-th fragment extraction (j=0..2) and a "
                      "retry; deep snapshot (sequence, ids, features by denoted nucleotides, qualifier values and value types, "
